@@ -20,6 +20,7 @@ Python → Lean
 * `BaseConnector._release_acquired`                      → `releaseAcquired`
 * `BaseConnector._release` / `Connection.release|close`  → the `.release` case of `step`
 * `BaseConnector._close_immediately`                     → `closeAll`
+* `BaseConnector._cleanup` (keep-alive sweep)            → `cleanup`, label `sweep`; `monotonic()` → `St.now`, label `advance`
 * `asyncio.Task.cancel`, `asyncio.timeout` firing        → `cancelTask`
 * CPython's `_run_once` for one handle                   → `.tick`
 
@@ -34,8 +35,7 @@ records the hook in `Task.tr`.
 
 `Fixes` switches on the repairs of the deviations found (DESIGN §9 F7, F8 and two more found
 while building this model); `Fixes.none` is the code as it is, `Fixes.all` is what the theorems
-in `AioProps/C07.lean` are about.  Not modelled: keep-alive
-expiry and the `_cleanup` timers, `force_close`, SSL `abort`/`_cleanup_closed`.
+in `AioProps/C07.lean` are about.  Not modelled: `force_close`, SSL `abort`/`_cleanup_closed`.
 -/
 namespace Aio.C07
 
@@ -91,6 +91,7 @@ deriving DecidableEq, Repr
 structure Conn where
   key : Key
   isOpen : Bool := true
+  usedAt : Nat := 0               -- `monotonic()` when it was last released to the pool
 deriving DecidableEq, Repr
 
 structure Fixes where
@@ -119,6 +120,9 @@ structure St where
   perm : List Key := []           -- what `random.shuffle` will do (set by the `shuffle` label)
   pendingNew : List Cid := []     -- ghost: connections returned by `_create_connection` whose
                                   -- on_connection_create_end callback has not returned yet
+  now : Nat := 0                  -- `monotonic()` (moved by the `advance` label)
+  ka : Nat := 15                  -- `_keepalive_timeout`
+  timer : Bool := false           -- `_cleanup_handle is not None`: the keep-alive sweep is scheduled
   mask : Nat := 0                 -- which trace hooks suspend: bit 0 reuseconn, 1 queued_start, 2 queued_end,
                                   -- 3 create_start, 4 create_end (0 = no traces)
 deriving Repr
@@ -134,6 +138,8 @@ inductive Label
   | close
   | shuffle (p : List Key)
   | traceDone (t : Tid)             -- the trace callback task `t` is suspended in returns
+  | advance (d : Nat)               -- time passes
+  | sweep                           -- the keep-alive timer fires: `_cleanup()`
 deriving Repr
 
 /-! ## small helpers -/
@@ -149,6 +155,14 @@ def connOpen (s : St) (c : Cid) : Bool := match s.conns[c]? with | some x => x.i
 def setTask (s : St) (t : Tid) (x : Task) : St := { s with tasks := s.tasks.set t x }
 def closeConn (s : St) (c : Cid) : St :=
   { s with conns := s.conns.modify c (fun x => { x with isOpen := false }) }
+/-- `proto.close()` for every connection in `l` -/
+def closeMany (s : St) (l : List Cid) : St :=
+  { s with conns := s.conns.mapIdx (fun i x => if i ∈ l then { x with isOpen := false } else x) }
+/-- reusable: `proto.is_connected() and now - use_time <= keepalive_timeout` (the test of `_get` and of `_cleanup`) -/
+def usable (s : St) (c : Cid) : Bool :=
+  match s.conns[c]? with
+  | some x => x.isOpen && decide (s.now ≤ x.usedAt + s.ka)
+  | none => false
 
 /-- does trace hook number `bit` suspend? -/
 def hooked (s : St) (bit : Nat) : Bool := s.mask.testBit bit
@@ -167,21 +181,29 @@ def acquire (s : St) (k : Key) (x : Slot) : St :=
 
 /-! ## `_get` -/
 
-/-- pop idle connections of key `k` from the left until a connected one is found;
-the dead ones met on the way are dropped (returned so that they can be closed) -/
+/-- pop idle connections of key `k` from the left until a reusable one is found; the others met on the way
+(lost, or idle for longer than the keep-alive timeout) are dropped from the pool -/
 def popIdle (s : St) (k : Key) : List Cid → Option Cid × List Cid
   | [] => (none, [])
   | c :: rest =>
     if connKey s c = k then
-      if connOpen s c then (some c, rest) else popIdle s k rest
+      if usable s c then (some c, rest) else popIdle s k rest
     else
       let r := popIdle s k rest
       (r.1, c :: r.2)
 
+/-- the connections `popIdle` drops: `_get` closes them -/
+def popDropped (s : St) (k : Key) : List Cid → List Cid
+  | [] => []
+  | c :: rest =>
+    if connKey s c = k then
+      if usable s c then [] else c :: popDropped s k rest
+    else popDropped s k rest
+
 /-- `_get(key)`: on success the connection is in `_acquired` and the task holds it -/
 def tryGet (s : St) (t : Tid) (x : Task) (first : Bool) : St × Bool :=
   let r := popIdle s x.key s.idle
-  let s := { s with idle := r.2 }
+  let s := closeMany { s with idle := r.2 } (popDropped s x.key s.idle)
   match r.1 with
   | none => (s, false)
   | some c => (setTask (acquire s x.key (.conn c)) t
@@ -409,8 +431,15 @@ def closeAll (fx : Fixes) (s : St) : St :=
   let s := closeSlots s s.acquired
   let victims := s.wkeys.flatMap (fun k => s.waitq.filter (fun t => keyOf s t = k))
   let s := cancelWaiters s victims
-  { s with idle := [], acquired := [], waitq := [], wkeys := [],
+  { s with idle := [], acquired := [], waitq := [], wkeys := [], timer := false,
            perHost := if fx.close then [] else s.perHost }
+
+/-- `_cleanup()`: every idle connection that is still reusable stays (in order), every other one is closed;
+the timer is re-armed iff something stays -/
+def cleanup (s : St) : St :=
+  let alive := s.idle.filter (usable s)
+  let expired := s.idle.filter (fun c => !usable s c)
+  closeMany { s with idle := alive, timer := !alive.isEmpty } expired
 
 def step (fx : Fixes) (s : St) : Label → St
   | .spawn t =>
@@ -449,12 +478,19 @@ def step (fx : Fixes) (s : St) : Label → St
         let s := setTask s t { x with pc := .done }
         if s.closed then s else
         let s := releaseAcquired s x.key (.conn c)
-        if pool then { s with idle := s.idle ++ [c] } else closeConn s c
+        -- a connection that was lost while in use has `protocol.should_close`: it is closed, not pooled
+        if pool && connOpen s c then
+          -- `_conns[key].append((protocol, monotonic()))`; the keep-alive sweep is scheduled if it is not
+          { s with idle := s.idle ++ [c], timer := true,
+                   conns := s.conns.modify c (fun y => { y with usedAt := s.now }) }
+        else closeConn s c
       | _ => s
     | none => s
-  | .lose c => if c ∈ s.idle then closeConn s c else s
+  | .lose c => if c ∈ s.idle ∨ Slot.conn c ∈ s.acquired then closeConn s c else s
   | .close => closeAll fx s
   | .shuffle p => { s with perm := p }
+  | .advance d => { s with now := s.now + d }
+  | .sweep => if s.timer then cleanup s else s
   | .traceDone t =>
     match s.tasks[t]? with
     | some x =>
@@ -469,7 +505,7 @@ def step (fx : Fixes) (s : St) : Label → St
 def run (fx : Fixes) (s : St) (ls : List Label) : St := ls.foldl (step fx) s
 
 /-- N tasks with the given keys, nothing started -/
-def init (limit lph : Nat) (keys : List Key) (mask : Nat := 0) : St :=
-  { limit := limit, lph := lph, tasks := keys.map (fun k => ({ key := k } : Task)), mask := mask }
+def init (limit lph : Nat) (keys : List Key) (mask : Nat := 0) (ka : Nat := 15) : St :=
+  { limit := limit, lph := lph, tasks := keys.map (fun k => ({ key := k } : Task)), mask := mask, ka := ka }
 
 end Aio.C07
